@@ -199,9 +199,11 @@ def kinds(maxb):
     return ks
 
 
-# families that make up the quick tier (lane request/response, map operation, stores)
-QUICK_FAMS = {"vreq", "vresp", "mop", "vsinit", "msinit", "sinitd", "vsresp", "msresp", "wlb"}
-
+# Families whose scenarios finish under CBMC (all are built on WithLengthBytesCodec: 5-10 s per
+# scenario). The other families (map operations/messages, map lanes/stores, ad hoc commands, routed
+# request/response) are generated only for the `calib` tier: one whole-frame decode of
+# RawMapOperation Update took 140-150 s, every cut scenario of them exceeded 200 s (measured).
+FEASIBLE = {"vreq", "vresp", "vsinit", "sinitd", "vsresp", "wlb", "dlop"}
 
 def arr(exprs):
     return f"[u8; {len(exprs)}] = [{', '.join(exprs)}]"
@@ -324,50 +326,79 @@ def pick(ks, names):
     return [by[n] for n in names]
 
 
+PAIRS_QUICK = [("vreq_cmd1", "vreq_cmd1"), ("vresp_syncev1", "vresp_ev1"), ("vsinit_cmd1", "vsinit_cmd1"),
+               ("vsresp1", "vsresp1")]
+QUICK_SKIP = {"dlop", "sinitd"}   # same layout / code path as wlb; one-byte frame
+
+
 def plan(tier, seed):
     maxb = 1 if tier == "quick" else 2
     allk = kinds(maxb)
     g = Gen()
-    if tier == "quick":
-        ks = [k for k in allk if k.fam in QUICK_FAMS]
-    else:
+    if tier == "calib":
         ks = allk
-    gen_enc(g, ks, 12)
-    gen_cut(g, ks, 12)
+    else:
+        ks = [k for k in allk if k.fam in FEASIBLE and not (tier == "quick" and k.fam in QUICK_SKIP)]
     by = {}
     for k in ks:
         by.setdefault(k.fam, []).append(k)
-    pairs = []
-    for fam, fk in by.items():
-        big = max(fk, key=lambda k: (k.n, k.name))
-        small = min(fk, key=lambda k: (k.n, k.name))
-        pairs.append((big, big))
-        if small is not big:
-            pairs.append((small, big))
-            pairs.append((big, small))
-        if tier != "quick":
-            for k in fk:
-                if k is not big and k is not small:
-                    pairs.append((k, big))
-    gen_two(g, pairs, 12)
-    gen_bad(g, ks, 4)
+    gen_enc(g, ks, 8)
+    gen_cut(g, ks, 8 if tier == "quick" else 10)
+    if tier == "quick":
+        pairs = [tuple(pick(ks, p)) for p in PAIRS_QUICK]
+    else:
+        pairs = []
+        for fk in by.values():
+            reps = {max(fk, key=lambda k: (k.n, k.name)), min(fk, key=lambda k: (k.n, k.name))}
+            reps |= {k for k in fk if k.name.endswith("1")}
+            pairs += [(a, b) for a in fk for b in sorted(reps, key=lambda k: k.name)]
+    gen_two(g, pairs, 6 if tier == "quick" else 8)
+    if tier == "calib":
+        gen_bad(g, ks, 1)
     os.makedirs(GEN, exist_ok=True)
     with open(GENFILE, "w") as f:
         f.write("\n".join(g.src))
     hs = g.hs
     rnd = random.Random(seed)
     rnd.shuffle(hs)
+    hs.sort(key=lambda h: 0 if h.role.startswith("two") else 1)
     grp = Group("c10_codecs", CRATE, "c10_codecs", hs, stubbing=True, jobs=6,
-                timeout=300 if tier == "quick" else 1200, mem_gb=8 if tier == "quick" else 10, pre=pre)
+                timeout=300 if tier == "quick" else 900, mem_gb=8, pre=pre)
     meta = {
-        "rule": "one obligation per (frame kind, group of cut positions / corruption sites); a frame kind fixes the "
-                "message variant and all lengths, ids / bodies / keys / counts / names are symbolic; every cut "
-                "position of every kind is enumerated (generated list), CBMC decides all contents",
-        "functions_encoded": [],
-        "bounds": {"body_key_value_bytes": f"0..{maxb}", "node_lane_host": "1 ASCII byte each",
-                   "pieces": "<= 2 reads per scenario", "frames": "<= 2 per stream"},
-        "stubs": ["alloc::fmt::format -> empty String (error messages only)"],
-        "outside": [],
-        "assumptions": [],
+        "rule": "one obligation per (frame kind, group of cut positions) and per (ordered pair of kinds, group of "
+                "cut positions); a frame kind fixes the message variant and all lengths, while ids and body bytes "
+                "are symbolic; every cut position 0..len of every listed kind is enumerated (generated list), CBMC "
+                "decides all contents. Three linked facts: enc (real encoder output == wire layout), cut (real "
+                "decoder on layout[..c] then on the same buffer extended by layout[c..]), two (two frames in one "
+                "stream: the bytes left after frame 1 are exactly frame 2)",
+        "functions_encoded": [
+            "swimos_utilities::encoding::WithLengthBytesCodec::{encode,decode}",
+            "swimos_agent_protocol::encoding::lane::RawValueLaneRequest{Encoder,Decoder} (LaneRequestEncoder/Decoder)",
+            "swimos_agent_protocol::encoding::lane::RawValueLaneResponse{Encoder,Decoder} (LaneResponseEncoder/Decoder)",
+            "swimos_agent_protocol::encoding::store::RawValueStoreInit{Encoder,Decoder}, StoreInitializedCodec, "
+            "RawValueStoreResponseDecoder",
+            "swimos_agent_protocol::encoding::downlink::DownlinkOperationDecoder",
+            "bytes::BytesMut::{extend_from_slice,advance,split_to,reserve}, Buf::get_u8/u64/u128"],
+        "bounds": {"body_bytes": f"0..{maxb}", "pieces": "<= 2 reads per frame", "frames": "<= 2 per stream",
+                   "kinds": sorted(k.name for k in ks), "unwind": "6 (cut), frame length + 2 (enc, two)"},
+        "stubs": ["alloc::fmt::format -> empty String (text of decoder error messages only)"],
+        "outside": [
+            "typed (Recon) codecs: go through the Recon parser / printer (DESIGN C09 reason)",
+            "RawMapOperation / RawMapMessage / RawMapLane* / RawMapStore* codecs, RawCommandMessage codec, "
+            "swimos_messages Raw{Request,Response}Message codecs: harness kinds and wire layouts exist (tier "
+            "`calib` generates them) but no cut scenario finished within 200 s of CBMC time (one whole-frame "
+            "RawMapOperation Update decode: 140-150 s); not decided by this check",
+            "corrupt tag / length family (`bad`): a symbolic tag byte or length byte did not finish within 150 s even "
+            "for the smallest codec; only generated in tier `calib`. Panics on corrupt lengths are therefore NOT "
+            "decided here (see the report for overflow sites found by reading)",
+            "DownlinkNotification decoders (body parsed as Recon)",
+            "fragmentations into three or more pieces; bodies longer than the bound",
+            "capacity behaviour of the buffer: buffers are created with exactly the capacity of the scenario"],
+        "assumptions": [
+            "a decoder's answer depends only on its own state and the bytes in the buffer, not on the buffer's "
+            "spare capacity",
+            "DownlinkOperationEncoder / store response encoders are Recon-typed; their raw wire layout "
+            "(length-prefixed / EVENT-tagged) is produced here by WithLengthBytesCodec / the raw lane response "
+            "encoder"],
     }
     return [grp], meta
